@@ -275,7 +275,7 @@ Section TgtRun.
               exists J', sfold [] (filter is_nu (fst res)) = Some J' /\ stop_reached c canon merged start (fst res) J').
     { intros Hrej Hs Hf. destruct (upto_stop_split c X Hs) as (X1 & e & X2 & EX & Hns & Hse & Hfu).
       destruct (stops_true c e Hse) as (_ & H0 & _).
-      destruct (stop_event U c canon start w merged_end U_id U_uniq U_up D_decl Hchain Hincl Hstartblk Hstart Hbundle Hnu X X1 e X2 Hd EX Hns Hse
+      destruct (stop_event_from U c canon start merged_end U_id U_uniq U_up Hchain Hincl Hsl Hnu [] X X1 e X2 (fun b (H : In b []) => match H with end) Hd EX Hns Hse
                   (not_rejected_start c start w Hstart Hrej H0)) as (J' & HJ' & Hsr).
       rewrite Hf, Hfu. exists J'. split; [exact HJ' | exact Hsr]. }
     destruct Hcase as [(Hrej & P & Hro & HP)|[(Hrej & fend & D1 & D2 & ED & EX & EJ & Hfo' & Hfend & Hall2 & HP)|(EX & Ef & Hne & Hns')]].
